@@ -273,6 +273,13 @@ def coq_step(step, obs, ids, stdlib):
     if "op" in step:
         k = step["op"]
         if k == "analyze":
+            if FACTS_IN_COQ:
+                # the facts are computed INSIDE Coq by the analyzer model (Model/Analyzer.v facts_of,
+                # the function C03's theorems are about) from CPython's tree of the text
+                import py2coq
+                return "Op (OAnalyze %s %s (facts_of %d %s %s))" % (
+                    L.cbool(not step.get("fresh")), L.cpath(step["path"]), ids[step["text"]],
+                    py2coq.ctext(step["text"]), py2coq.cmodule(step["text"]))
             f = extract.extract(step["text"], stdlib)
             return "Op (OAnalyze %s %s %s)" % (L.cbool(not step.get("fresh")), L.cpath(step["path"]),
                                                L.cfacts(f, ids[step["text"]]))
@@ -341,7 +348,9 @@ def coq_wcase(case, obs_list, stdlib):
     return "(mk_wcase %s %s %s)" % (disk, roots, L.clist(steps)), idx, panics
 
 
-HEADER = """From PLS Require Import %s.
+FACTS_IN_COQ = os.environ.get("VERIF_FACTS", "coq") == "coq"
+HEADER = """From PLS Require Import Model.Analyzer.
+From PLS Require Import %s.
 Open Scope string_scope. Open Scope N_scope. Open Scope list_scope.
 """
 
